@@ -8,21 +8,26 @@ def run(tier="quick", seed=0, use_cache=True):
     res.level = "proof"
     res.rules = ["LEN-ALGEBRA", "LEN-CELL"]
     res.explanation = (
-        "Every return of Length._p_resolveConflict is normalised to a "
-        "polynomial over (old, s1, s2) (canonical form over Z, straight-line "
-        "locals substituted along every syntactic path) and must be exactly "
-        "s1 + s2 - old, also with s1 and s2 exchanged; Python integers are "
-        "unbounded, so the identity is exact for all inputs. The cell API "
-        "(set/__setstate__/__init__/change/__call__/__getstate__) is matched "
-        "structurally: unconditional stores/reads of the single attribute "
-        "`value`, no other attribute written.")
+        "An all-paths symbolic interpreter over Length's methods (values are "
+        "polynomials over the parameters and the entry contents of the cell, "
+        "canonical form over Z; both branches of every conditional are "
+        "followed; calls of module-level helpers and of the class's own "
+        "methods are inlined, a parameter bound to self aliases the object). "
+        "Every path of _p_resolveConflict must return exactly the polynomial "
+        "s1 + s2 - old - which is symmetric in s1 and s2 - without touching "
+        "the object; Python integers are unbounded, so the identity is exact "
+        "for all inputs. On every path set/__setstate__/__init__ leave "
+        "value = argument, change leaves value = value + argument, "
+        "__call__/__getstate__ return value unchanged, and no other "
+        "attribute is written.")
     res.assumptions = ["Python int arithmetic is exact", "pickling of the cell is persistent.Persistent's job"]
     findings, obligations = length.check()
     for f in findings:
         res.findings.add(f)
-    res.count("LEN-ALGEBRA", sum(1 for o in obligations if "return" in o or "symmetry" in o))
+    res.count("LEN-ALGEBRA", sum(1 for o in obligations if "returns" in o))
     res.count("LEN-CELL", sum(1 for o in obligations if "cell" in o))
-    res.floor("return statements of _p_resolveConflict", sum(1 for o in obligations if "return" in o), 1)
+    res.floor("paths of _p_resolveConflict", sum(1 for o in obligations if "returns" in o), 1)
+    res.floor("cell methods interpreted", sum(1 for o in obligations if "cell" in o), 6)
     res.samples = obligations
     res.units = {"files": ["src/BTrees/Length.py"], "methods": 7}
     res.exhaustive = True
